@@ -365,4 +365,135 @@ theorem padBad_length (choice : List Nat → Nat → List Nat) (good keep : List
     · rw [if_neg hn] at h; injection h with h; rw [← h, length_setAt]
   · rw [if_neg ht] at h; injection h with h; rw [h]
 
+/-! ## scale, validity on scaled values, dataset-level bookkeeping (`getScatter`, `limitSel`) -/
+
+/-- a logarithm is valid exactly for positive finite numbers -/
+theorem logV_valid_iff (lg : Rat → Rat) (v : Val) :
+    (logV lg v).isValid = true ↔ ∃ q, v = .fin q ∧ 0 < q := by
+  cases v with
+  | nan => simp [logV, Val.isValid]
+  | ninf => simp [logV, Val.isValid]
+  | pinf => simp [logV, Val.isValid]
+  | fin q =>
+    by_cases h : 0 < q
+    · simp [logV, Val.isValid, h]
+    · by_cases h0 : q = 0
+      · simp [logV, Val.isValid, h0]
+      · simp [logV, Val.isValid, h, h0]
+
+theorem sel_map {α β : Type} (f : α → β) (m : List Bool) (xs : List α) :
+    sel m (xs.map f) = (sel m xs).map f := by
+  induction m generalizing xs with
+  | nil => cases xs <;> simp [sel]
+  | cons b m ih =>
+    cases xs with
+    | nil => simp [sel_nil_right]
+    | cons x xs => cases b <;> simp [sel, ih]
+
+/-- scaling commutes with boolean indexing -/
+theorem applyScale_sel (lg : Rat → Rat) (log : Bool) (m : List Bool) (col : List Val) :
+    applyScale lg log (sel m col) = sel m (applyScale lg log col) := by
+  unfold applyScale
+  cases log with
+  | false => simp
+  | true => simp only [if_true]; exact (sel_map _ _ _).symm
+
+theorem length_applyScale (lg : Rat → Rat) (log : Bool) (col : List Val) :
+    (applyScale lg log col).length = col.length := by
+  unfold applyScale
+  cases log <;> simp
+
+/-- if a mask only selects positions where `p` holds, every selected element satisfies `p` -/
+theorem sel_forall {α : Type} (p : α → Bool) (m : List Bool) (xs : List α)
+    (h : ∀ i, m.getD i false = true → (xs.map p).getD i false = true) :
+    ∀ v ∈ sel m xs, p v = true := by
+  induction m generalizing xs with
+  | nil => cases xs <;> simp [sel]
+  | cons b m ih =>
+    cases xs with
+    | nil => simp [sel_nil_right]
+    | cons x xs =>
+      have ht : ∀ i, m.getD i false = true → (xs.map p).getD i false = true := by
+        intro i hi
+        have := h (i + 1)
+        simpa using this (by simpa using hi)
+      cases b with
+      | false =>
+        intro v hv
+        exact ih xs ht v (by simpa [sel] using hv)
+      | true =>
+        intro v hv
+        simp only [sel, List.mem_cons] at hv
+        rcases hv with rfl | hv
+        · have := h 0
+          simpa using this
+        · exact ih xs ht v hv
+
+theorem goodMask_getD (a b : List Val) (i : Nat) :
+    (goodMask a b).getD i false = true →
+      (a.map Val.isValid).getD i false = true ∧ (b.map Val.isValid).getD i false = true := by
+  induction a generalizing b i with
+  | nil => simp [goodMask]
+  | cons x a ih =>
+    cases b with
+    | nil => simp [goodMask]
+    | cons y b =>
+      cases i with
+      | zero => simp [goodMask]
+      | succ i =>
+        have := ih b i
+        simpa [goodMask] using this
+
+/-- the grid stage never selects an invalid pair (no hypothesis on the random source) -/
+theorem gridKeep_sub_good (choice : List Nat → Nat → List Nat) (a b : List Val) (k : Nat)
+    (keep : List Bool) (h : gridKeep choice a b k = .ok keep) :
+    ∀ i, keep.getD i false = true → (goodMask a b).getD i false = true := by
+  unfold gridKeep at h
+  simp only at h
+  split at h
+  · split at h
+    · cases h
+    · injection h with h; subst h; intro i; exact scatter_le _ _ i
+  · injection h with h; subst h; intro i hi; exact hi
+
+theorem goodMask_sel (m : List Bool) (a b : List Val) :
+    goodMask (sel m a) (sel m b) = sel m (goodMask a b) := by
+  induction m generalizing a b with
+  | nil => cases a <;> cases b <;> simp [sel, goodMask]
+  | cons c m ih =>
+    cases a with
+    | nil => simp [sel_nil_right, goodMask]
+    | cons x a =>
+      cases b with
+      | nil => simp [sel_nil_right, goodMask]
+      | cons y b =>
+        have := ih a b
+        cases c <;> simp_all [sel, goodMask]
+
+/-- counting inside the filtered events = counting the conjunction on the dataset -/
+theorem cnt_sel_eq (m g : List Bool) :
+    cnt (sel m g) = cnt (List.zipWith (fun q x => q && x) m g) := by
+  induction m generalizing g with
+  | nil => cases g <;> simp [sel, cnt]
+  | cons c m ih =>
+    cases g with
+    | nil => simp [sel_nil_right, cnt]
+    | cons x g =>
+      cases c with
+      | false => simp only [sel, List.zipWith_cons_cons, Bool.false_and, cnt_cons, ih g]; simp
+      | true => simp only [sel, List.zipWith_cons_cons, Bool.true_and, cnt_cons, ih g]
+
+theorem zipWith_and_getD (q m : List Bool) (i : Nat) :
+    (List.zipWith (fun a b => a && b) q m).getD i false = true →
+      q.getD i false = true ∧ m.getD i false = true := by
+  induction q generalizing m i with
+  | nil => simp
+  | cons x q ih =>
+    cases m with
+    | nil => simp
+    | cons y m =>
+      cases i with
+      | zero => simp
+      | succ i => simpa using ih m i
+
 end DclabModel.Down
